@@ -410,7 +410,15 @@ func checkC10(x *Exec, c *Case) ([]Violation, bool) {
 		case "truncated":
 			nt = true
 			// the declared body never arrives: nothing may be executed for it
-			// (allocation bound above is the main oracle)
+			// (allocation bound above is the main oracle); whatever the declared
+			// length, the oversized message is answered - if at all before its body
+			// ends - with the non-fatal 54000, never with another error
+			for _, m := range t.Msgs {
+				if m.Type == 'E' && (m.Fields['S'] == "FATAL" || m.Fields['S'] == "PANIC" || strings.HasPrefix(m.Fields['C'], "08")) {
+					add("oversized-answered-fatally", "oversized fatal", fmt.Sprintf("conn %d: an oversized message was answered with severity %s, SQLSTATE %s (want the non-fatal 54000, whatever length it declares): %q", i, m.Fields['S'], m.Fields['C'], kinds))
+					break
+				}
+			}
 		case "copy":
 			nt = true
 			ne := 0
